@@ -898,6 +898,11 @@ func (v *Visitor) checkEscape(s *df.AnalyzerState, node df.GraphNode, escapeInfo
 		s.AddError("missing escape graph",
 			fmt.Errorf("was missing escape graph for node %s when checking escape", node))
 	}
+	// With on-demand summarization the function of the node may not be summarized yet, and the node's marks are
+	// only known once it is.
+	if s.Config.SummarizeOnDemand && !node.Graph().Constructed {
+		v.onDemandIntraProcedural(s, node.Graph())
+	}
 	for instr := range node.Marks() {
 		_, isCall := instr.(ssa.CallInstruction)
 		rationale, isTracked := escapeInfo.InstructionLocality[instr]
